@@ -1169,3 +1169,128 @@ Example pin_naming :
   settings_error_strings = ["Duplicate version"; "Method does not exist."; "Mismatched version for method."; "selective_gapic_generation"] /\
   mem_str "import" kwlist = true /\ mem_str "get" kwlist = false.
 Proof. repeat split; reflexivity. Qed.
+
+From Coq Require Import Permutation.
+
+(* ---------------------------------------------------------------- the resource table: when file order matters *)
+Lemma assoc_last_some {A} k (l : list (string * A)) a : assoc_last k l = Some a -> In (k, a) l.
+Proof.
+  induction l as [|[k' v] l' IH]; intros H.
+  - discriminate.
+  - cbn [assoc_last] in H. destruct (assoc_last k l') as [x|] eqn:El.
+    + right. apply IH. exact H.
+    + destruct (String.eqb k k') eqn:Ek; [|discriminate].
+      apply String.eqb_eq in Ek. subst k'. injection H as H. subst v. now left.
+Qed.
+
+Lemma assoc_last_none {A} k (l : list (string * A)) : assoc_last k l = None -> forall a, ~ In (k, a) l.
+Proof.
+  induction l as [|[k' v] l' IH]; intros H a Hin.
+  - exact Hin.
+  - cbn [assoc_last] in H. destruct (assoc_last k l') as [x|] eqn:El; [discriminate|].
+    destruct (String.eqb k k') eqn:Ek; [discriminate|].
+    destruct Hin as [Heq|Hin].
+    + injection Heq as Hk _. subst k'. rewrite String.eqb_refl in Ek. discriminate.
+    + exact (IH eq_refl a Hin).
+Qed.
+
+Lemma res_lookup_some g t a : res_lookup g t = Some a -> exists f, In f g /\ In (t, a) (fi_res f).
+Proof.
+  induction g as [|f g' IH]; intros H.
+  - discriminate.
+  - cbn [res_lookup] in H. destruct (assoc_last t (fi_res f)) as [x|] eqn:Ef.
+    + injection H as H. subst x. exists f. split; [now left | now apply assoc_last_some].
+    + destruct (IH H) as [f' [Hin Hd]]. exists f'. split; [now right | exact Hd].
+Qed.
+
+Lemma res_lookup_none g t : res_lookup g t = None -> forall f a, In f g -> ~ In (t, a) (fi_res f).
+Proof.
+  induction g as [|f0 g' IH]; intros H f a Hin.
+  - destruct Hin.
+  - cbn [res_lookup] in H. destruct (assoc_last t (fi_res f0)) as [x|] eqn:Ef; [discriminate|].
+    destruct Hin as [Heq|Hin].
+    + subst f0. now apply assoc_last_none.
+    + now apply IH.
+Qed.
+
+(* every declaration of the type [t] in the files of [g] names the same address (in particular: t is declared at most once) *)
+Definition res_agree (g : graph) (t : string) : Prop :=
+  forall f1 f2 a1 a2, In f1 g -> In f2 g -> In (t, a1) (fi_res f1) -> In (t, a2) (fi_res f2) -> a1 = a2.
+
+Lemma res_lookup_order_free g g' t : Permutation g g' -> res_agree g t -> res_lookup g t = res_lookup g' t.
+Proof.
+  intros Hp Hag.
+  destruct (res_lookup g t) as [a|] eqn:E1; destruct (res_lookup g' t) as [a'|] eqn:E2.
+  - destruct (res_lookup_some _ _ _ E1) as [f1 [Hi1 Hd1]].
+    destruct (res_lookup_some _ _ _ E2) as [f2 [Hi2 Hd2]].
+    apply (Permutation_in _ (Permutation_sym Hp)) in Hi2.
+    now rewrite (Hag f1 f2 a a' Hi1 Hi2 Hd1 Hd2).
+  - destruct (res_lookup_some _ _ _ E1) as [f1 [Hi1 Hd1]].
+    apply (Permutation_in _ Hp) in Hi1.
+    exfalso. exact (res_lookup_none _ _ E2 f1 a Hi1 Hd1).
+  - destruct (res_lookup_some _ _ _ E2) as [f2 [Hi2 Hd2]].
+    apply (Permutation_in _ (Permutation_sym Hp)) in Hi2.
+    exfalso. exact (res_lookup_none _ _ E1 f2 a' Hi2 Hd2).
+  - reflexivity.
+Qed.
+
+(* the API of c16_util.resource_twice_api: resources.proto declares the type by the message Shelf,
+   library.proto declares it again at file level (address-less synthetic message) and its rpc DeleteShelf
+   reaches the resource only through the reference on DeleteShelfRequest.name *)
+Definition rt_type : string := "example.googleapis.com/Shelf".
+Definition rt_res : file :=
+  mkFile "google/example/library/v1/resources.proto" true [P "Finish"]
+    [Msg (P "Theme") [fld_s; mkField None (Some (P "Finish")) None] [] [];
+     Msg (P "Shelf") [fld_s; mkField (Some (P "Shelf.Row")) None None; mkField None (Some (P "Shelf.Kind")) None;
+                      mkField (Some (P "Theme")) None None] [P "Shelf.Kind"] [Msg (P "Shelf.Row") [fld_s] [] []];
+     Msg (P "Spare") [fld_s] [] []]
+    [] [(rt_type, P "Shelf")].
+Definition rt_lib : file :=
+  mkFile "google/example/library/v1/library.proto" true []
+    [Msg (P "DeleteShelfRequest") [mkField None None (Some rt_type)] [] [];
+     Msg (P "DeleteShelfResponse") [] [] [];
+     Msg (P "ListThingsRequest") [fld_s] [] []; Msg (P "ListThingsResponse") [fld_s] [] []]
+    [mkSvc "Library" (P "Library")
+       [mkMethod "DeleteShelf" (P "Library.DeleteShelf") (P "DeleteShelfRequest") (P "DeleteShelfResponse") None "" None false;
+        mkMethod "ListThings" (P "Library.ListThings") (P "ListThingsRequest") (P "ListThingsResponse") None "" None false]]
+    [(rt_type, "")].
+Definition rt_sel : list string := [P "Library.DeleteShelf"].
+Definition rt_kept (g : graph) (a : addr) : bool :=
+  match allowlist g rt_sel with Ok al => mem a al | Err _ => false end.
+
+(* the lookup does depend on the order of the files when a type is declared twice with different addresses *)
+Lemma ex_res_lookup_order :
+  Permutation [rt_res; rt_lib] [rt_lib; rt_res] /\ ~ res_agree [rt_res; rt_lib] rt_type /\
+  res_lookup [rt_res; rt_lib] rt_type = Some (P "Shelf") /\ res_lookup [rt_lib; rt_res] rt_type = Some "".
+Proof.
+  split; [apply perm_swap|]. split; [|split; vm_compute; reflexivity].
+  intros H. specialize (H rt_res rt_lib (P "Shelf") "" (or_introl eq_refl) (or_intror (or_introl eq_refl))
+                          (or_introl eq_refl) (or_introl eq_refl)). discriminate H.
+Qed.
+
+(* the hypothesis of res_lookup_order_free holds of a graph with resources: a single declaration *)
+Lemma ex_res_agree : res_agree [rt_res; mkFile "x.proto" true [] [] [] [("example.googleapis.com/Annex", "")]] rt_type /\
+  res_lookup [rt_res; mkFile "x.proto" true [] [] [] [("example.googleapis.com/Annex", "")]] rt_type = Some (P "Shelf").
+Proof.
+  split; [|vm_compute; reflexivity].
+  intros f1 f2 a1 a2 H1 H2 D1 D2.
+  assert (Hone : forall f a, In f [rt_res; mkFile "x.proto" true [] [] [] [("example.googleapis.com/Annex", "")]] ->
+                             In (rt_type, a) (fi_res f) -> a = P "Shelf").
+  { intros f a [Hf|[Hf|[]]] Hd; subst f; cbn [fi_res] in Hd.
+    - destruct Hd as [Hd|[]]. now injection Hd as Hd.
+    - destruct Hd as [Hd|[]]. discriminate Hd. }
+  now rewrite (Hone f1 a1 H1 D1), (Hone f2 a2 H2 D2).
+Qed.
+
+(* "a kept RPC that references resource type T keeps the message carrying T" is FALSE of the faithful model when
+   a file that comes earlier declares T at file level: the reference resolves to the address-less synthetic
+   message and the real resource message (with everything only it leads to) is pruned; with the files in
+   the other order it is kept *)
+Lemma resource_reference_keeps_message_refuted :
+  exists g f, In f g /\ In (rt_type, P "Shelf") (fi_res f) /\ rt_kept g (P "DeleteShelfRequest") = true /\
+              rt_kept g (P "Shelf") = false /\ rt_kept g (P "Theme") = false /\
+              rt_kept (rev g) (P "Shelf") = true /\ rt_kept (rev g) (P "Shelf.Row") = true /\ rt_kept (rev g) (P "Theme") = true /\ rt_kept (rev g) (P "Finish") = true.
+Proof.
+  exists [rt_lib; rt_res], rt_res. split; [right; now left|]. split; [now left|].
+  repeat split; vm_compute; reflexivity.
+Qed.
